@@ -98,4 +98,11 @@ theorem ipv4_no_underflow (g : Mem) (o l : Nat) (r : IpR) (h : ipv4SliceFromSlic
         · cases h; simp [mkV4]; omega
       · cases h; simp [mkV4]; omega
 
+/-- the NDP options iterator (model of C17, structurally the caller's `for` loop, accepted by Lean with a
+    decreasing measure): it yields at most `len / 8` options, and after an error it is exhausted -/
+theorem ndp_options_iter_bound (area : Bytes) :
+    (EpModel.View.ndpRun ⟨0, area⟩).1.length ≤ area.length / 8 ∧
+      (∀ it it' e, EpModel.View.ndpNext it = some (.error e, it') → EpModel.View.ndpNext it' = none) :=
+  ⟨(C17.ndp_tiles area).2.2.2, fun it it' e h => C17.ndp_exhausted_after_error it it' e h⟩
+
 end EpModel.Props.C02
